@@ -236,6 +236,26 @@ class Translator:
                                        *[sp.Function("kw_" + k.arg)(self.tr(k.value)) for k in n.keywords if k.arg])
         name = call_name(n)
         d = dotted(n.func) or name or "?"
+        if self.unroll_comps and any(isinstance(a, ast.Starred) for a in n.args):
+            # f(*xs) with xs a literal / unrolled sequence: spell the arguments out
+            new_args = []
+            changed = False
+            for a in n.args:
+                if isinstance(a, ast.Starred):
+                    try:
+                        v = self.tr(a.value)
+                    except AnalysisError:
+                        v = None
+                    if isinstance(v, sp.Tuple):
+                        changed = True
+                        for i, x in enumerate(v):
+                            nm = f"<splat{id(a)}_{i}>"
+                            self.env[nm] = x
+                            new_args.append(ast.copy_location(ast.Name(id=nm, ctx=ast.Load()), a))
+                        continue
+                new_args.append(a)
+            if changed:
+                n = ast.copy_location(ast.Call(func=n.func, args=new_args, keywords=n.keywords), n)
         args = [a for a in n.args if not isinstance(a, ast.Starred)]
         A = lambda i: self.tr(args[i])  # noqa: E731
         npf = d.split(".")[-1] if d.split(".")[0] in ("np", "numpy", "math", "sp", "scipy") else None
